@@ -81,6 +81,8 @@ def mt_case(draw, methods=("unity", "eigen", "adapt"), dtype=None, class_level=F
         nfft = draw(st.sampled_from([None, "nextpow2"])) if class_level else None
     else:
         nfft = draw(gen.nfft_at_least(N, hi_mult=3))
+        if draw(st.integers(0, 11)) == 11:
+            nfft = draw(st.sampled_from([4097, 5000, 6000, 8192, 20000]))     # grids much longer than the record
     return {"x": x, "NW": NW, "k": k, "NFFT": nfft, "method": draw(st.sampled_from(list(methods)))}
 
 
@@ -265,7 +267,16 @@ def _class_body(ctx, case):
         return
     meth = case["method"]
     real = not case["x"]["complex"]
-    p = spectrum.MultiTapering(x, NW=NW, k=case["k"], NFFT=case["NFFT"], method=meth, scale_by_freq=False)
+    if isinstance(case["NFFT"], int) and (N + k) % 3 == 0 and N - 3 > 2 * NW + 1:
+        # one object in three first holds (and estimates) another, shorter record; the record is then replaced:
+        # the estimate must be that of the record it holds now, on the grid it was given
+        y0 = (x[:N - 3] * 0.5 + 0.25).copy()
+        p = spectrum.MultiTapering(y0, NW=NW, k=case["k"], NFFT=case["NFFT"], method=meth, scale_by_freq=False)
+        _ = p.psd
+        p.data = x
+        ctx.cls("record replaced")
+    else:
+        p = spectrum.MultiTapering(x, NW=NW, k=case["k"], NFFT=case["NFFT"], method=meth, scale_by_freq=False)
     psd = np.asarray(p.psd)
     nb = ref.nbins_onesided(nfft) if real else nfft
     ctx.check(psd.shape == (nb,), "PSD has %s values, expected %d (%s data, NFFT=%d)"
